@@ -107,9 +107,8 @@ def ty_src(t, spell=0, quote=True):
     if k == "con":
         return f"Annotated[{ty_src(t[2], spell, quote)}, {con_src(t[1])}]"
     if k == "union":
-        if len(t[1]) == 2 and ("none",) in [tuple(x) for x in t[1]] and spell % 2 == 0:
-            other = [x for x in t[1] if tuple(x) != ("none",)][0]
-            return f"Optional[{ty_src(other, spell, quote)}]"
+        if len(t[1]) == 2 and tuple(t[1][1]) == ("none",) and tuple(t[1][0]) != ("none",) and spell % 2 == 0:
+            return f"Optional[{ty_src(t[1][0], spell, quote)}]"   # Optional[X] is Union[X, None]: same order
         return "Union[" + ", ".join(ty_src(x, spell, quote) for x in t[1]) + "]"
     if k == "obj":
         return f'"C{t[1]}"' if quote else f"C{t[1]}"
@@ -384,17 +383,17 @@ def value_coq(v, mod):
     if isinstance(v, list):
         return f"(VList {coq_list([value_coq(x, mod) for x in v])})"
     if isinstance(v, set):
-        return f"(VSet {coq_list([value_coq(x, mod) for x in v])})"
+        return f"(VSet {coq_list(sorted(value_coq(x, mod) for x in v))})"
     if isinstance(v, frozenset):
-        return f"(VFrozenSet {coq_list([value_coq(x, mod) for x in v])})"
+        return f"(VFrozenSet {coq_list(sorted(value_coq(x, mod) for x in v))})"
     if isinstance(v, tuple) and hasattr(v, "_fields"):
         cid = int(type(v).__name__[1:])
         fs = [f"({coq_str(n)}, {value_coq(getattr(v, n), mod)})" for n in v._fields]
         return f"(VObj {coq_nat(cid)} {coq_list(fs)})"
     if isinstance(v, tuple):
         return f"(VTuple {coq_list([value_coq(x, mod) for x in v])})"
-    if isinstance(v, dict):
-        return f"(VDict {coq_list([f'({value_coq(k, mod)}, {value_coq(x, mod)})' for k, x in v.items()])})"
+    if isinstance(v, dict):   # compared order-insensitively (python dict equality): emitted in a canonical order
+        return f"(VDict {coq_list(sorted(f'({value_coq(k, mod)}, {value_coq(x, mod)})' for k, x in v.items()))})"
     if dataclasses.is_dataclass(v):
         cid = int(type(v).__name__[1:])
         fs = [f"({coq_str(f.name)}, {value_coq(getattr(v, f.name), mod)})" for f in dataclasses.fields(v)]
